@@ -98,6 +98,24 @@ fn cb_action(mut env: ActionEnv) {
                 }
             },
             ActionKind::Collect => do_collect(),
+            // The refusal is only promised inside finalizers and destructors: these scripts act when the action was
+            // triggered by the destruction of its owner (a top-level clean() is ordinary top-level code)
+            ActionKind::TryUnwrapG => {
+                if c.node_destructor_on_stack() {
+                    script_try_unwrap_g("cleaning action run by a destructor");
+                }
+            },
+            ActionKind::CollectThenTryUnwrapG => {
+                if c.node_destructor_on_stack() {
+                    do_collect();
+                    script_try_unwrap_g("cleaning action run by a destructor (after a collect_cycles() call)");
+                }
+            },
+            ActionKind::FinalizeAgainG => {
+                if c.node_destructor_on_stack() {
+                    script_finalize_again_g("cleaning action run by a destructor");
+                }
+            },
         }
     }
     // Release what the closure captured
@@ -990,6 +1008,7 @@ pub fn step(op: Op) -> StepOutcome {
     c.op_resurrections.set(0);
     for o in c.model.borrow_mut().objs.iter_mut() {
         o.upgraded_in_dtor = false;
+        o.fin_this_op = false;
     }
     let r = catch_unwind(AssertUnwindSafe(|| apply(op)));
     unwind_fix_stack(0);
